@@ -34,10 +34,41 @@ def run_one(prog, shared, out, idx, barrier, profiling):
 HUNG = [False]
 
 
-def in_threads(progs, shared, profiling, concurrent):
+def bridge_thread(stop, started, box):
+    """one more thread that is INSIDE the asyncio bridge (fn.asyncio() awaited on its own event loop) for as long as the
+    other threads run their classic asynq computations: asyncio mode is a property of that thread's context only"""
+    import asyncio
+    import asynq
+
+    @asynq.asynq()
+    def holder():
+        started.set()
+        n = 0
+        while not stop.is_set():
+            yield asyncio.sleep(0.0003)
+            n += 1
+        return n
+
+    loop = asyncio.new_event_loop()
+    try:
+        box["n"] = loop.run_until_complete(holder.asyncio())
+    except BaseException as e:
+        box["crash"] = "%s: %s" % (type(e).__name__, e)
+        started.set()
+    finally:
+        loop.close()
+
+
+def in_threads(progs, shared, profiling, concurrent, bridge=False):
     out = [None] * len(progs)
     import time
     if concurrent:
+        stop, started, box = threading.Event(), threading.Event(), {}
+        bt = None
+        if bridge:
+            bt = threading.Thread(target=bridge_thread, args=(stop, started, box), daemon=True)
+            bt.start()
+            started.wait(10)
         barrier = threading.Barrier(len(progs))
         ths = [threading.Thread(target=run_one, args=(p, shared, out, i, barrier, profiling), daemon=True) for i, p in enumerate(progs)]
         for t in ths:
@@ -49,6 +80,11 @@ def in_threads(progs, shared, profiling, concurrent):
             if t.is_alive():
                 HUNG[0] = True
                 out[i] = {"events": [{"e": "Hang"}], "crash": "thread did not finish", "nprof": 0}
+        if bt is not None:
+            stop.set()
+            bt.join(10)
+            if bt.is_alive() or "crash" in box:
+                raise RuntimeError("the bridge thread of the harness failed: %s" % box.get("crash", "still alive"))
     else:
         for i, p in enumerate(progs):
             t = threading.Thread(target=run_one, args=(p, shared, out, i, None, profiling), daemon=True)
@@ -75,10 +111,11 @@ def main():
             shared = {}
             solo = in_threads(job["progs"], shared, profiling, False)
             conc = []
-            for _ in range(job.get("rounds", 3)):
+            for rnd in range(job.get("rounds", 3)):
                 if HUNG[0]:
                     break
-                conc.append(in_threads(job["progs"], shared, profiling, True))
+                # every other round: one more thread sits inside the asyncio bridge meanwhile
+                conc.append(in_threads(job["progs"], shared, profiling, True, bridge=rnd % 2 == 1))
         finally:
             for k, v in saved.items():
                 setattr(_debug.options, k, v)
